@@ -12,8 +12,8 @@ Proof.
   - exact rule1_ok. - exact rule2_ok. - exact rule3_ok. - exact rule4_ok. - exact rule5_ok. - exact rule6_ok. - exact rule7_ok. - exact rule8_ok.
 Qed.
 
-Lemma all_quiet_rules : forall r, In r [9; 10] -> quiet_rule_ok r.
-Proof. intros r Hr. cbn in Hr. destruct Hr as [<-|[<-|[]]]; [exact rule9_ok|exact rule10_ok]. Qed.
+Lemma all_quiet_rules : forall r, In r [9; 10; 14] -> quiet_rule_ok r.
+Proof. intros r Hr. cbn in Hr. destruct Hr as [<-|[<-|[<-|[]]]]; [exact rule9_ok|exact rule10_ok|exact rule14_ok]. Qed.
 
 Lemma monitor_accepts_model_l : forall c sched fin,
   cfg_wf c = true -> nonneg (c_ntypes c) = true -> Disc c sched ->
